@@ -48,6 +48,7 @@ type rec struct {
 }
 
 const (
+	maxPacketLen = 1280 // nts.MaxPacketLen of the tree under test (client receive buffer, reply size)
 	ntpPort = 123
 	altPort = 10123
 	kePort  = 4460
@@ -322,7 +323,7 @@ func (l *lane) sendSrv(b []byte, id int, raw json.RawMessage, cls string) rec {
 		l.srv = nil
 		return r
 	}
-	spin := l.srv.spinning(80 * time.Millisecond)
+	spin := l.srv.spinning(100*time.Millisecond) || l.srv.spinning(100*time.Millisecond)
 	if !spin {
 		// not burning CPU: give it a long last chance before calling it stuck
 		conn.Write(sreq)
@@ -441,10 +442,10 @@ func (l *lane) cliCall(cmd clientCmd) (res clientRes, state string, sig, detail 
 	t0 := time.Now()
 	early := time.Duration(cmd.DeadlineMs)*time.Millisecond + 150*time.Millisecond
 	spin := false
-	for {
-		w := early
-		if time.Since(t0) >= early {
-			w = limit
+	for !spin && time.Since(t0) < limit {
+		w := early - time.Since(t0)
+		if w <= 0 {
+			w = 150 * time.Millisecond
 		}
 		select {
 		case line := <-l.cli.lines:
@@ -459,15 +460,11 @@ func (l *lane) cliCall(cmd clientCmd) (res clientRes, state string, sig, detail 
 				return res, "stall", "", "client child exited without a Go crash dump: " + d
 			}
 			return res, "child_died", s, d
-		case <-time.After(w - time.Since(t0)):
+		case <-time.After(w):
 		}
 		// the call has not returned 150 ms after its deadline: burning CPU (twice in a row)?
-		if time.Since(t0) < limit && l.cli.spinning(80*time.Millisecond) && l.cli.spinning(80*time.Millisecond) && len(l.cli.lines) == 0 {
+		if time.Since(t0) >= early && l.cli.spinning(100*time.Millisecond) && l.cli.spinning(100*time.Millisecond) && len(l.cli.lines) == 0 {
 			spin = true
-			break
-		}
-		if time.Since(t0) >= limit {
-			break
 		}
 	}
 	if !spin {
@@ -540,10 +537,10 @@ func (l *lane) cliResponse(g *dgram, req []byte, auth bool, sess *session) []byt
 		return append(hdr, rndBytes(l.rng, 27)...)
 	case "ext":
 		return ntsTrailer(l.rng, hdr, g, sess, key, uid, 0)
-	case "s1024":
-		return ntsTrailer(l.rng, hdr, g, sess, key, uid, 1024)
-	case "s1025":
-		return append(hdr, rndBytes(l.rng, 977+l.rng.Intn(500))...)
+	case "smax", "s1024":
+		return ntsTrailer(l.rng, hdr, g, sess, key, uid, maxPacketLen)
+	case "sover", "s1025":
+		return append(hdr, rndBytes(l.rng, maxPacketLen-47+l.rng.Intn(500))...)
 	}
 	return hdr
 }
@@ -619,13 +616,37 @@ func (l *lane) drainUDP(cs ...*net.UDPConn) {
 	}
 }
 
+// planSilent: does the plan itself contain silence (a call that is meant to run into its deadline)?
+func planSilent(c *acase) bool {
+	for _, g := range c.Rs {
+		if g.Sz == "none" {
+			return true
+		}
+	}
+	return len(c.Rs) == 0
+}
+
+// A call that reports a timeout although every planned datagram was sent may just have been slow
+// (busy machine): such a call is repeated once with a longer deadline.
+func timedOut(res clientRes, state string) bool {
+	return state == "returned" && !res.Ok && strings.Contains(res.Err, "i/o timeout")
+}
+
 func (l *lane) cliOnce(c *acase, mut bool) (res clientRes, state, sig, detail string) {
+	res, state, sig, detail = l.cliOnceD(c, mut, 1)
+	if timedOut(res, state) && !planSilent(c) {
+		res, state, sig, detail = l.cliOnceD(c, mut, 4)
+	}
+	return
+}
+
+func (l *lane) cliOnceD(c *acase, mut bool, scale int) (res clientRes, state, sig, detail string) {
 	auth := c.Auth == "yes"
-	deadline := 150
+	deadline := 150 * scale
 	if auth {
 		stream := keStream(l.rng, c.Ke, c.Kt, l.fakeIP, altPort)
 		l.fke.set(&kePlan{pre: c.Pre, stream: stream})
-		deadline = 250
+		deadline = 250 * scale
 	}
 	l.drainUDP(l.ntp, l.alt)
 	done := make(chan []byte, 1)
@@ -702,8 +723,9 @@ func (l *lane) runKeSrv(tc *tcase, c *acase, out emitter) {
 		}
 		half := strings.HasPrefix(c.Kt, "eof") || i > 0
 		res, _, err := keExchange(addr, c.Pre, req, half, 2*time.Second)
+		answered := err == nil && (len(res.cookies) > 0 || res.errCode >= 0 || res.eom)
 		switch {
-		case l.srv.exited() || l.srv.waitExit(30*time.Millisecond):
+		case l.srv.exited() || (!answered && l.srv.waitExit(40*time.Millisecond)):
 			r.Outcome = "child_died"
 			r.Sig, r.Detail = crashSignature(l.srv.stderr())
 			r.Hex = hexHead(req)
@@ -758,6 +780,11 @@ func (l *lane) csSrvBytes(g *dgram, seq int) ([]byte, int) {
 	mt := g.Mt
 	if mt == "na" {
 		mt = pick(l.rng, "sync319", "sync320", "fup319", "fup320", "other319", "other320")
+		if g.Sz == "short" {
+			// the representative of "shorter than a header" that gets furthest: a Follow Up on the
+			// general port whose MessageLength is its own (short) length
+			mt = "fup320"
+		}
 	}
 	if strings.HasSuffix(mt, "320") {
 		port = 320
@@ -798,7 +825,11 @@ func (l *lane) csSrvBytes(g *dgram, seq int) ([]byte, int) {
 	case "s0":
 		b = []byte{}
 	case "short":
-		b = b[:1+l.rng.Intn(43)]
+		n := 4 + l.rng.Intn(40)
+		if g.Ml != "other" {
+			binary.BigEndian.PutUint16(b[2:], uint16(n))
+		}
+		b = b[:n]
 	case "over":
 		b = append(b, rndBytes(l.rng, 99-len(b)+l.rng.Intn(200))...)
 	}
@@ -957,6 +988,14 @@ func (l *lane) csCliDgram(g *dgram, seq uint16) ([]byte, *net.UDPConn) {
 }
 
 func (l *lane) csCliOnce(c *acase) (res clientRes, state, sig, detail string) {
+	res, state, sig, detail = l.csCliOnceD(c, 100)
+	if timedOut(res, state) && !planSilent(c) {
+		res, state, sig, detail = l.csCliOnceD(c, 400)
+	}
+	return
+}
+
+func (l *lane) csCliOnceD(c *acase, deadline int) (res clientRes, state, sig, detail string) {
 	l.drainUDP(l.cs319, l.cs320)
 	stop := make(chan struct{})
 	var wg sync.WaitGroup
@@ -968,7 +1007,7 @@ func (l *lane) csCliOnce(c *acase) (res clientRes, state, sig, detail string) {
 		defer runtime.UnlockOSThread()
 		buf := make([]byte, 512)
 		// the Follow Up request is the second datagram the client writes
-		l.cs320.SetReadDeadline(time.Now().Add(400 * time.Millisecond))
+		l.cs320.SetReadDeadline(time.Now().Add(time.Duration(deadline+300) * time.Millisecond))
 		n, from, err := l.cs320.ReadFromUDP(buf)
 		if err != nil || n < 32 {
 			return
@@ -981,11 +1020,11 @@ func (l *lane) csCliOnce(c *acase) (res clientRes, state, sig, detail string) {
 			}
 			b, conn := l.csCliDgram(g, seq)
 			conn.WriteToUDP(b, from)
-			time.Sleep(500 * time.Microsecond) // keep the order of datagrams sent from different sockets
+			time.Sleep(time.Millisecond) // keep the order of datagrams sent from different sockets
 		}
 		<-stop
 	}()
-	res, state, sig, detail = l.cliCall(clientCmd{Op: "csptp", Local: l.cliIP, Remote: l.fakeIP, DeadlineMs: 100})
+	res, state, sig, detail = l.cliCall(clientCmd{Op: "csptp", Local: l.cliIP, Remote: l.fakeIP, DeadlineMs: deadline})
 	close(stop)
 	l.cs320.SetReadDeadline(time.Now())
 	wg.Wait()
